@@ -90,6 +90,9 @@ class Case:
         return d
 
 
+_PREPARED = {}
+
+
 def prepare(schema, text, variables, opname):
     """parse + validate + coerce variables on the real code. Returns (status, ast, coerced)"""
     from py_gql.lang import parse
@@ -97,13 +100,23 @@ def prepare(schema, text, variables, opname):
     from py_gql.execution.get_operation import get_operation
     from py_gql.utilities import coerce_variable_values
     from py_gql.exc import VariablesCoercionError, InvalidOperationError
-    ast = parse(text)
-    try:
-        v = validate_ast(schema, ast)
-    except Exception as e:  # noqa  (C05 reports these)
-        return "validate-raises:" + type(e).__name__, ast, None
-    if v.errors:
-        return "invalid", ast, None
+    # parse + validate once per (Schema object, text): histories prepare the same text with other variables
+    key = (id(schema), text)
+    hit = _PREPARED.get(key)
+    if hit is not None and hit[0] is schema:
+        ast, verdict = hit[1], hit[2]
+    else:
+        ast = parse(text)
+        try:
+            v = validate_ast(schema, ast)
+            verdict = "invalid" if v.errors else None
+        except Exception as e:  # noqa  (C05 reports these)
+            verdict = "validate-raises:" + type(e).__name__
+        if len(_PREPARED) > 4000:
+            _PREPARED.clear()
+        _PREPARED[key] = (schema, ast, verdict)
+    if verdict is not None:
+        return verdict, ast, None
     try:
         op = get_operation(ast, opname)
         coerced = coerce_variable_values(schema, op, variables or {})
@@ -216,7 +229,7 @@ def check_against_pyspec(ctx, schema, holder, dump, c):
 
 def run(ctx):
     rng = ctx.rng
-    n_schemas = ctx.n(14, 70)
+    n_schemas = ctx.n(12, 70)
     per_schema = ctx.n(22, 40)
     use_lean = ctx.model_ok and ctx.driver.available()
     lean_cases = []
